@@ -157,10 +157,20 @@ def run(ctx, R, tier):
             ok = False
             why = "the hook is not given the connection that ended"
     R.check(ok, "C13-R3", "_clientDisconnect|hook-exactly-once", "the user hook is called exactly once, with the connection, on every path", d.loc(), why)
+    # the stream table is shared with every other connection's threads and the housekeeper: between the look-up of an entry and its removal somebody else may have
+    # removed it. The removal in _clientDisconnect therefore cannot raise (pop with a default) - a KeyError here leaves the function before the user's hook is called
+    raising_removal = [st for st, t, k in stores_in(d.node) if k == "del" and isinstance(t, ast.Subscript) and "streaming_responses" in unparse(t.value)] + \
+        [c for c in walk_no_nested(d.node) if isinstance(c, ast.Call) and isinstance(c.func, ast.Attribute) and c.func.attr == "pop" and "streaming_responses" in unparse(c.func.value)
+         and len(c.args) + len(c.keywords) < 2]
+    R.check(not raising_removal, "C13-R3", "_clientDisconnect|stream-removal-cannot-raise", "streams of the ended connection are removed with pop(id, default)", d.loc(raising_removal[0]) if raising_removal else d.loc(),
+            "`%s` raises KeyError when another thread (close_stream over the helper connection, the housekeeper) removed the stream after it was looked up: _clientDisconnect "
+            "ends there and the disconnect hook is not called for this connection" % (unparse(raising_removal[0], 60) if raising_removal else ""))
     for fn in (d, ctx.fn("Pyro5.server.Daemon._housekeeping")):
         def edits_table(lp_):
             return any(isinstance(x, (ast.Delete, ast.Assign)) and any(isinstance(t, ast.Subscript) and "streaming_responses" in unparse(t.value)
-                                                                      for t in (x.targets if hasattr(x, "targets") else [])) for x in ast.walk(lp_))
+                                                                      for t in (x.targets if hasattr(x, "targets") else [])) for x in ast.walk(lp_)) or \
+                any(isinstance(x, ast.Call) and isinstance(x.func, ast.Attribute) and x.func.attr in ("pop", "popitem", "clear", "update", "setdefault") and "streaming_responses" in unparse(x.func.value)
+                    for x in ast.walk(lp_))
         loops = [n for n in walk_no_nested(fn.node) if isinstance(n, ast.For) and ("streaming_responses" in unparse(n.iter) or edits_table(n))]
         if not loops:
             raise AnalysisError("%s: loops over streaming_responses vanished" % fn.qualname)
@@ -173,7 +183,9 @@ def run(ctx, R, tier):
             snap = isinstance(it, ast.Call) and isinstance(it.func, ast.Name) and it.func.id in ("list", "tuple", "sorted")
             mutates = any(isinstance(x, (ast.Delete, ast.Assign)) and any(isinstance(t, ast.Subscript) and "streaming_responses" in unparse(t.value)
                                                                          for t in (x.targets if hasattr(x, "targets") else []))
-                          for x in ast.walk(lp))
+                          for x in ast.walk(lp)) or \
+                any(isinstance(x, ast.Call) and isinstance(x.func, ast.Attribute) and x.func.attr in ("pop", "popitem", "clear", "update", "setdefault") and "streaming_responses" in unparse(x.func.value)
+                    for x in ast.walk(lp))
             R.check(snap or not mutates, "C13-R3", "%s|stream-loop#%d-snapshot" % (fn.name, i), "the loop that edits the stream table iterates a snapshot of it", fn.loc(lp),
                     "`for ... in %s` deletes/rewrites entries of the dict it is iterating: the first edit raises RuntimeError, the rest of the function "
                     "(for _clientDisconnect: the user's disconnect hook) is skipped" % unparse(it))
